@@ -1908,12 +1908,12 @@ func zzC04OneTrace(tb testing.TB, w *zzWriter, tr, nOps int, seed int64, dir str
 					q.T, q.ID, q.A = "apply", &cid, a
 					reqAddr := c.addr(a)
 					switch {
+					case a > 255:
+						q.Alt = "zonefall" // one alternative at a time
 					case cid.K == "cid" && rng.Intn(3) == 0:
 						q.Alt, cs = "cidcase", strings.ToUpper(cs)
 					case !c.v6() && rng.Intn(3) == 0:
 						q.Alt, reqAddr = "mapped", zzC04Mapped(reqAddr)
-					case a > 255:
-						q.Alt = "zonefall"
 					}
 					e := rig.effective(cs, reqAddr)
 					q.R, q.Vals, q.Svcs = e.Who, e.Vals, e.Svcs
